@@ -251,15 +251,25 @@ class Program:
 
     def _normalise(self) -> None:
         """Role-based attribute names, then inlining of non-anchor private helpers (hwverif.normalize)."""
-        from .normalize import apply_renames, flatten_program, role_renames, unfold_missing_predicates
+        from .normalize import apply_renames, flatten_program, role_renames, split_conditional_returns, unfold_missing_predicates
 
         unfolded = unfold_missing_predicates(self)
         if unfolded:
             self.normalisation_log += unfolded
             self._reindex()
+        split = split_conditional_returns(self)
+        if split:
+            self.normalisation_log += split
+            self._reindex()
         ren = role_renames(self)
         if ren:
             self.normalisation_log += ["attribute " + x for x in apply_renames(self, ren)]
+            self._reindex()
+        from .normalize import method_role_renames
+
+        mren = method_role_renames(self)
+        if mren:
+            self.normalisation_log += ["method " + x for x in apply_renames(self, mren)]
             self._reindex()
         for _round in range(2):
             new_bodies, inl = flatten_program(self)
